@@ -33,6 +33,7 @@ type screenCfg struct {
 	headerOff   bool // the header was hidden (hide-header / toggle-header)
 }
 
+var inlineInfoTail = regexp.MustCompile(`\s+[-< ]*(?:\d+/\d+(?: \(\d+(?:/\d+)?\))?[- ]*(?:\.\.)?|\d*/?\d*\.\.)\s*$`)
 var infoRe = regexp.MustCompile(`(\d+)/(\d+)(?: \((\d+)(?:/\d+)?\))?`)
 
 func rowWidth(s string) int {
@@ -78,7 +79,7 @@ func matchRow(text string, line string, avail int) (ok bool, truncated bool) {
 	if text == strings.TrimRight(line, " ") {
 		return true, false // the whole line is shown (rows wider than the window are rejected separately)
 	}
-	if rowWidth(line) != len(line) {
+	if rowWidth(line) != len([]rune(line)) {
 		// a line with double-width characters (they follow an ASCII head that every query matches
 		// in, so the row is never scrolled): only widths are compared. A line wider than the text
 		// columns is cut at the right with the ellipsis and stays within them.
@@ -145,7 +146,15 @@ func checkScreen(rawRows []string, rawSt *Status, cfg screenCfg) (string, bool) 
 		want := strings.TrimRight(cfg.prompt+st.Query, " ")
 		if len(cfg.prompt+st.Query) >= cfg.width-4 && strings.HasPrefix(r, cfg.prompt) && t != want {
 			// a query wider than the window is scrolled: the row shows the prompt and a piece of the query
-			if piece := strings.TrimSpace(r[len(cfg.prompt):]); piece != "" && strings.Contains(st.Query, piece) {
+			piece := strings.TrimSpace(r[len(cfg.prompt):])
+			if cfg.info == "inline" || cfg.info == "inline-right" {
+				// the counter shares the row (after the query, or at the right edge)
+				if i := strings.LastIndex(piece, "  <"); cfg.info == "inline" && i >= 0 {
+					piece = piece[:i] // "  < 12/34 (5) ----", whole or cut by the window
+				}
+				piece = strings.TrimSpace(inlineInfoTail.ReplaceAllString(piece, ""))
+			}
+			if piece != "" && strings.Contains(st.Query, piece) {
 				role[i] = "prompt"
 				promptRows++
 				continue
@@ -438,7 +447,14 @@ func c15Session(t *rapid.T) {
 	cfg.multi = rapid.Bool().Draw(t, "multi")
 	cfg.prompt = "Q> "
 	args := []string{"--no-mouse", "--no-scrollbar", "--no-unicode", "--pointer", ">", "--marker", "*", "--ellipsis", "..", "--prompt", cfg.prompt, "--layout=" + cfg.layout, "--info=" + cfg.info, "--color=bw"}
-	if rapid.IntRange(0, 2).Draw(t, "hscroll") != 0 {
+	hasWide := false
+	for _, l := range lines {
+		if rowWidth(l) != len([]rune(l)) {
+			hasWide = true
+		}
+	}
+	// rows with double-width characters are identified by their beginning: they are not scrolled
+	if rapid.IntRange(0, 2).Draw(t, "hscroll") != 0 || hasWide {
 		args = append(args, "--no-hscroll")
 	}
 	if rapid.IntRange(0, 2).Draw(t, "noSeparator") == 0 {
